@@ -304,6 +304,26 @@ var regSettings = [][2]int{{9, 6}, {3, 2}, {4, 3}, {6, 5}, {4, 2}, {2, 2}, {5, 3
 func randomTournament(o *potsOut, run int, r *rand.Rand, steps int) *regEnv {
 	c := regSettings[r.Intn(len(regSettings))]
 	e := newRegEnv(o, run, c[0], c[1])
+	if r.Intn(4) == 0 {
+		// a big field: 5 to 12 tables at once, then scattered eliminations - balancing with many tables
+		e.add((5+r.Intn(8))*e.max-r.Intn(e.max), "")
+		e.setStatus(1)
+		for k := 0; k < 6+r.Intn(10); k++ {
+			ids := e.liveTables()
+			if len(ids) == 0 {
+				break
+			}
+			t := ids[r.Intn(len(ids))]
+			e.sync(t, r.Intn(4), "")
+			if r.Intn(3) != 0 {
+				e.release(t, "")
+			}
+		}
+		if r.Intn(2) == 0 {
+			e.setStatus(2)
+		}
+		e.settle(r, 14)
+	}
 	for s := 0; s < steps; s++ {
 		k := r.Intn(100)
 		switch {
